@@ -29,7 +29,10 @@ def run_case(rng, tier, case):
     for t in gen.asset_types(spec):
         case.feature('type:' + t)
     case.key = env.spec_key(gen.strip_private(spec)); case.sample = dict(gen.abbreviate(spec), split=split); case.spec = spec
-    r = flow.run_portfolio(spec, split=split)
+    one_call = rng.random() < 0.2          # a fifth of the cases go through the documented shortcut eaopack.io.optimize
+    if one_call:
+        case.feature('route:io.optimize')
+    r = flow.run_portfolio(spec, split=split, one_call=one_call)
     if not r.ok:
         case.reject(flow.describe_error(r)); return
     if not r.solved:
